@@ -82,7 +82,7 @@ theorem routeRoot_Q (h : Fam c A B T q fs) : routeRoot c [QL' T q fs] "Query" = 
     descends with `type.name = T`, whatever the list wrapping) -/
 theorem extract_root (h : Fam c A B T q fs) :
     extractSels c [] "Query" [QL' T q fs] A = .ok ([QLown T q fs], stepsB B T q (fsB fs)) := by
-  have hextract := extract_leaves h fs [] [] (fun f hf => hf)
+  have hextract := extract_leaves h.toFamT fs [] [] (fun f hf => hf)
   have hidstep : extractSel c [q] T A idField ([], []) = .ok ([idField], []) := by
     simp [idField, extractSel, getURL, isBuiltinName, h.tumTn, h.tumTid]
   have hinner : extractLoop c [q] T A (idField :: leaves fs) ([], [])
@@ -98,7 +98,7 @@ theorem extract_root (h : Fam c A B T q fs) :
     unfold QL'
     rw [extractSel]
     simp only [getURL_root h, beq_self_eq_true, ↓reduceIte, List.isEmpty_cons, Bool.false_eq_true, TypeRef.name,
-      preExtract_T h, bind, Except.bind, List.nil_append]
+      preExtract_T h.toFamT, bind, Except.bind, List.nil_append]
     rw [hinner]
     simp only [hfinT, QLown]
   unfold extractSels
